@@ -79,7 +79,7 @@ func observeLog(r *verdict.Run, res *sim.Result) {
 func init() {
 	checks["c09"] = func(id string) int {
 		r := newRun(id, "fault_enumeration")
-		r.Rule = "scenario corpus covering every default side-effect path of both protocols (12 federating + 9 social wrapped types, default callbacks, overrides, delivery with stored/remote inboxes and nested collections, inbox forwarding, Send, GET handlers) x seeded variants; for each: the fault-free run and one run per fallible call (every Database, Transport, NewTransport, protocol and callback invocation, in order) made to fail; thorough adds fault pairs and random addressing; a per-request held-set automaton judges every run; non-trivial = run in which at least one Lock was taken; distinct by (scenario, fault plan)"
+		r.Rule = "scenario corpus covering every default side-effect path of both protocols (12 federating + 9 social wrapped types, default callbacks, overrides, delivery with stored/remote inboxes and nested collections, inbox forwarding, Send, GET handlers) x seeded variants; for each: the fault-free run and one run per fallible call (every Database, Transport, NewTransport, protocol and callback invocation, in order) made to fail; thorough adds fault pairs and random addressing; plus scenarios drawn from the generators of C02 C03 C04 C06 C16 C17 (fault-free, a subset under every single fault) and requests whose body reader or ResponseWriter fails; a per-request held-set automaton judges every run; non-trivial = run in which at least one Lock was taken; distinct by (scenario, fault plan)"
 		r.Assumptions = []string{"the simulated Database records Lock/Unlock per request id carried in the context", "a request that panics is left to C11"}
 		if *replay != "" {
 			sc, err := readReplayScenario(*replay)
